@@ -108,7 +108,7 @@ MODEL_DOC = {
     "index": "str/list.index raises ValueError when absent",
     "unpack-split": "unpacking s.split(sep, n) / rsplit into k names raises ValueError when fewer separators are present",
     "const-index": "seq[k] with a constant index raises IndexError on a shorter sequence",
-    "match-attr": "re.Pattern.match/search/fullmatch return None: .group()/.end()/.groups() on it raises AttributeError",
+    "match-attr": "re.Pattern.match/search/fullmatch return None: .group()/.end()/.groups() on it raises AttributeError, m[k] TypeError",
     "assert": "assert raises AssertionError",
     "enum": "Enum(value) raises ValueError for an unknown value",
     "lookup": "codecs.lookup raises LookupError for an unknown codec name",
@@ -126,6 +126,30 @@ class Site(t.NamedTuple):
     kind: str  # 'raise' | model key
     exc: str
     text: str
+
+
+def codec_call(c: ast.AST, fq: str | None = None):
+    """(kind, receiver, encoding, errors) for X.decode(enc, err) / str(X, enc, err) [decode] and X.encode(enc, err) /
+    bytes(X, enc, err) [encode]; encoding / errors are lower-cased constants, None when not constant."""
+    if not isinstance(c, ast.Call):
+        return None
+
+    def const(e, default):
+        if e is None:
+            return default
+        v = astq.const_str(e)
+        return v.lower().replace("_", "-") if v is not None else None
+
+    if isinstance(c.func, ast.Attribute) and c.func.attr in ("decode", "encode"):
+        enc = const(astq.arg_or_kw(c, 0, "encoding"), "utf-8")
+        err = astq.arg_or_kw(c, 1, "errors")
+        return c.func.attr, c.func.value, enc, (astq.const_str(err) if err is not None else "strict")
+    d = dotted(c.func)
+    if d in ("str", "bytes", "bytearray") and c.args and (len(c.args) >= 2 or astq.kwarg(c, "encoding") is not None or astq.kwarg(c, "errors") is not None):
+        enc = const(astq.arg_or_kw(c, 1, "encoding"), "utf-8")
+        err = astq.arg_or_kw(c, 2, "errors")
+        return ("decode" if d == "str" else "encode"), c.args[0], enc, (astq.const_str(err) if err is not None else "strict")
+    return None
 
 
 def _enc_arg(c: ast.Call) -> str | None:
@@ -154,6 +178,7 @@ class Effects:
         # `if <guard>: raise` inside a handler is treated as dead when the rule has established that the guard is false
         # on every path from its entry points (set by the rule module together with a recorded obligation)
         self.dead_reraise_guards: set[str] = set()
+        self.dead_reraises: set[int] = set()  # id() of bare `raise` statements the rule has shown to be dead
         # optional predicate (fi, call, size expression) -> bool: the size argument provably flows, unbounded, from a
         # parsed client integer (set by the rule module once the call graph is known)
         self.size_hook: t.Callable[[FuncInfo, ast.Call, ast.AST], bool] | None = None
@@ -208,6 +233,15 @@ class Effects:
                     add(n, "loads", "ValueError")
                 elif fq in self.enum_classes and n.args:
                     add(n, "enum", "ValueError")
+                elif fq in ("builtins.str", "builtins.bytes", "builtins.bytearray") and codec_call(n) is not None:
+                    kind, _recv, enc, err = codec_call(n)
+                    if kind == "decode":
+                        if not (err in self.handlers_ok or enc in ("latin1", "latin-1", "iso-8859-1", "iso8859-1")):
+                            add(n, "decode", "UnicodeError" if enc == "idna" else "UnicodeDecodeError")
+                    elif enc == "idna":
+                        add(n, "encode", "UnicodeError")
+                    elif enc not in ("utf-8", "utf8") and err not in self.handlers_ok:
+                        add(n, "encode", "UnicodeEncodeError")
                 elif fq in ("builtins.bytearray", "builtins.bytes") and len(n.args) == 1 and not n.keywords and not isinstance(n.args[0], ast.Constant):
                     if self.size_hook is not None and self.size_hook(fi, n, n.args[0]):
                         add(n, "size", "OverflowError")
@@ -251,6 +285,10 @@ class Effects:
                 defs = [v for _, v in astq.assigns_to(fn, nm) if v is not None]
                 if defs and all(isinstance(v, ast.Call) and isinstance(v.func, ast.Attribute) and v.func.attr in ("match", "search", "fullmatch") for v in defs):
                     add(n, "match-attr", "AttributeError")
+            elif isinstance(n, ast.Subscript) and isinstance(n.value, ast.Name) and isinstance(n.ctx, ast.Load):
+                defs = [v for _, v in astq.assigns_to(fn, n.value.id) if v is not None]
+                if defs and all(isinstance(v, ast.Call) and isinstance(v.func, ast.Attribute) and v.func.attr in ("match", "search", "fullmatch") and dotted(v.func.value) for v in defs):
+                    add(n, "match-attr", "TypeError")
         self._sites[fi.fq] = out
         return out
 
@@ -519,7 +557,7 @@ class Effects:
                             for x in rer:
                                 g = astq.enclosing(x, (ast.If,))
                                 dead = isinstance(g, ast.If) and any(x is y for st in g.body for y in [st, *walk_no_nested(st)]) and norm(g.test) in self.dead_reraise_guards and any(g is y for st in h.body for y in [st, *walk_no_nested(st)])
-                                if not dead:
+                                if not dead and id(x) not in self.dead_reraises:
                                     live.append(x)
                             if live:
                                 break  # continues outward from the try statement
@@ -884,7 +922,7 @@ class Flow:
                 # a boolean flag: `fits = size <= limit` ... `if fits`
                 if op == "truthy" and isinstance(a, ast.Name):
                     defs = list(self.rd(fi).reaching(tn, a.id))
-                    if len(defs) == 1 and defs[0].kind == "assign" and defs[0].index is None and isinstance(defs[0].value, (ast.Compare, ast.BoolOp, ast.UnaryOp)) and defs[0].node is not None:
+                    if len(defs) == 1 and defs[0].kind == "assign" and defs[0].index is None and isinstance(defs[0].value, (ast.Compare, ast.BoolOp, ast.UnaryOp, ast.Call)) and defs[0].node is not None:
                         fv = defs[0].value
                         fn = set(astq.names_in(fv))
                         if self._unchanged_between(fi, fn, defs[0].node, tn):
@@ -1019,7 +1057,7 @@ class Flow:
         st = st._replace(seen=st.seen | {key})
         v = self._minlen(fi, e, node, path, st)
         if not path and node is not None and not isinstance(e, ast.Constant):
-            g = self._guard_minlen(fi, e, node)
+            g = self._guard_minlen(fi, e, node, v)
             if g > v:
                 v = g
         return v
@@ -1044,7 +1082,7 @@ class Flow:
                 seg = e.elts[: i + 1] if i >= 0 else e.elts[i:]
                 if -len(e.elts) <= i < len(e.elts) and not any(isinstance(x, ast.Starred) for x in seg):
                     return ml(fi, e.elts[i], node, rest, st)
-            if h[0] in ("elem", "any"):
+            if h[0] in ("elem", "any", "item"):
                 vals = [ml(fi, x.value, node, path, st) if isinstance(x, ast.Starred) else ml(fi, x, node, rest, st) for x in e.elts]
                 return min(vals) if vals else INF
             return 0
@@ -1052,23 +1090,23 @@ class Flow:
             if not path:
                 return len([k for k in e.keys if k is not None])
             h, rest = path[0], path[1:]
-            if h[0] in ("key", "val", "any"):  # iterating a dict yields its keys
+            if h[0] in ("key", "val", "any", "item"):  # iterating a dict yields its keys, subscripting it a value
                 vals = []
                 for k, v in zip(e.keys, e.values):
                     if k is None:
                         vals.append(ml(fi, v, node, path, st))
                     else:
-                        vals.append(ml(fi, v if h[0] == "val" else k, node, rest, st))
+                        vals.append(ml(fi, v if h[0] in ("val", "item") else k, node, rest, st))
                 return min(vals) if vals else INF
             return 0
         if isinstance(e, (ast.ListComp, ast.SetComp, ast.GeneratorExp)):
-            if path and path[0][0] in ("any", "elem"):
+            if path and path[0][0] in ("any", "elem", "item"):
                 return ml(fi, e.elt, node, path[1:], st)
             return 0
         if isinstance(e, ast.DictComp):
             if path and path[0][0] in ("key", "any"):
                 return ml(fi, e.key, node, path[1:], st)
-            if path and path[0][0] == "val":
+            if path and path[0][0] in ("val", "item"):
                 return ml(fi, e.value, node, path[1:], st)
             return 0
         if isinstance(e, ast.IfExp):
@@ -1108,7 +1146,8 @@ class Flow:
             i = const_int(e.slice)
             if i is not None:
                 return ml(fi, e.value, node, (("elem", i),) + path, st)
-            return 0
+            # a computed index / key: some element of a sequence, some value of a mapping
+            return ml(fi, e.value, node, (("item",),) + path, st)
         if isinstance(e, ast.Call):
             return self._minlen_call(fi, e, node, path, st)
         return 0
@@ -1133,6 +1172,10 @@ class Flow:
         if node is None:
             return 0
         defs = self.rd(fi).reaching(node, e.id)
+        if defs and all(d.kind == "param" for d in defs):
+            rx = self.regex_of_match(fi, e, node, st)
+            if rx is not None:
+                return _match_minlen(rx, path)  # the match object handed to a callback of R.sub
         if not defs:
             try:
                 v = self.folder.name(fi.module, e.id)
@@ -1300,7 +1343,7 @@ class Flow:
                 return min(1, ml(fi, e.args[0], node, (), st))
             return ml(fi, e.args[0], node, p2, st)
         if fq == "builtins.enumerate" and e.args:
-            if path and path[0][0] in ("any", "elem"):
+            if path and path[0][0] in ("any", "elem", "item"):
                 if len(path) == 1:
                     return 2
                 if path[1] == ("elem", 1):
@@ -1344,6 +1387,8 @@ class Flow:
                     return ml(fi, recv, node, (("val",),) + path[1:], st)
                 if m == "copy" and not e.args:
                     return ml(fi, recv, node, path, st)
+                if m in ("span", "regs") and not e.args and self.regex_of_match(fi, recv, node, st) is not None:
+                    return 2 if not path else 0
                 if m in ("group", "groups"):
                     r = self.regex_of_match(fi, recv, node, st)
                     if r is not None:
@@ -1361,6 +1406,8 @@ class Flow:
                             return 0
                     return 0
             else:
+                if m in ("match", "search", "fullmatch"):
+                    return _match_minlen(rx, path)
                 if m == "split" and not path and e.args:
                     try:
                         plain = not _has_anchor(rx)
@@ -1395,16 +1442,16 @@ class Flow:
                 m = n.func.attr
                 nn = cfg.node_of(n)
                 if m in ("append", "add") and len(n.args) == 1:
-                    vals.append(self.minlen(fi, n.args[0], nn, rest, st) if h[0] in ("any", "elem") else 0)
+                    vals.append(self.minlen(fi, n.args[0], nn, rest, st) if h[0] in ("any", "elem", "item") else 0)
                 elif m == "insert" and len(n.args) == 2:
-                    vals.append(self.minlen(fi, n.args[1], nn, rest, st) if h[0] in ("any", "elem") else 0)
+                    vals.append(self.minlen(fi, n.args[1], nn, rest, st) if h[0] in ("any", "elem", "item") else 0)
                 elif m in ("extend", "update") and len(n.args) == 1 and not n.keywords:
                     p2 = (("any",),) + rest if h[0] == "elem" else path
                     vals.append(self.minlen(fi, n.args[0], nn, p2, st))
                 elif m == "setdefault" and len(n.args) == 2:
-                    if h[0] == "key" or (is_dict and h[0] != "val"):
+                    if h[0] == "key" or (is_dict and h[0] not in ("val", "item")):
                         vals.append(self.minlen(fi, n.args[0], nn, rest, st))
-                    elif h[0] == "val":
+                    elif h[0] in ("val", "item"):
                         vals.append(self.minlen(fi, n.args[1], nn, rest, st))
                     else:
                         vals.append(min(self.minlen(fi, n.args[0], nn, rest, st), self.minlen(fi, n.args[1], nn, rest, st)))
@@ -1418,9 +1465,9 @@ class Flow:
                         nn = cfg.node_of(n)
                         if isinstance(tg.slice, ast.Slice):
                             vals.append(0)
-                        elif h[0] == "key" or (is_dict and h[0] != "val"):
+                        elif h[0] == "key" or (is_dict and h[0] not in ("val", "item")):
                             vals.append(self.minlen(fi, tg.slice, nn, rest, st))
-                        elif h[0] == "val" or is_list:
+                        elif h[0] in ("val", "item") or is_list:
                             vals.append(self.minlen(fi, n.value, nn, rest, st))
                         else:
                             # iterating the container: a dict yields its keys, a list its items - the type is not known
@@ -1453,17 +1500,21 @@ class Flow:
                         return True
         return False
 
-    def _guard_minlen(self, fi: FuncInfo, e: ast.AST, node) -> int:
+    def _guard_minlen(self, fi: FuncInfo, e: ast.AST, node, base: int = 0) -> int:
+        """lower bound of len(e) from the conditions that hold at node: e / len(e) truthy, len(e) compared with a
+        constant in any spelling (>= 2, > 1, not < 2, != 0, == 3), e compared with a text constant, a constant prefix /
+        suffix / member of e."""
         ks = self.keys(fi, e, node)
 
         def is_len(x):
             return isinstance(x, ast.Call) and dotted(x.func) == "len" and len(x.args) == 1 and norm(x.args[0]) in ks
 
-        best = 0
+        best = base if base < INF else 0
+        excluded: list[tuple[int, Atom]] = []  # len(e) != k
         for at in self.atoms(fi, node):
             v = 0
             if at.op == "truthy" and at.truth:
-                if norm(at.a) in ks:
+                if norm(at.a) in ks or is_len(at.a):
                     v = 1
                 elif isinstance(at.a, ast.Call) and isinstance(at.a.func, ast.Attribute) and at.a.func.attr in ("startswith", "endswith") and norm(at.a.func.value) in ks and len(at.a.args) == 1 and const_text(at.a.args[0]):
                     v = len(const_text(at.a.args[0]))
@@ -1474,8 +1525,11 @@ class Flow:
                     v = const_int(at.a) + 1
             elif at.op == "eq":
                 for x, y in ((at.a, at.b), (at.b, at.a)):
-                    if is_len(x) and const_int(y) is not None and at.truth:
-                        v = max(v, const_int(y))
+                    if is_len(x) and const_int(y) is not None:
+                        if at.truth:
+                            v = max(v, const_int(y))
+                        else:
+                            excluded.append((const_int(y), at))
                     c = const_text(y)
                     if c is not None and norm(x) in ks:
                         if at.truth:
@@ -1489,6 +1543,13 @@ class Flow:
                 v = 1 if (c is None or len(c) >= 1) else 0  # membership / non-empty substring: the container is not empty
             if v > best and self.fresh(fi, at, node):
                 best = v
+        changed = True
+        while changed:
+            changed = False
+            for k, at in excluded:
+                if k == best and self.fresh(fi, at, node):
+                    best += 1
+                    changed = True
         return best
 
     # -- lower bound of an int ------------------------------------------------
@@ -1706,6 +1767,10 @@ class Flow:
         for at in self.atoms(fi, node):
             if at.op == "in" and at.truth and norm(at.b) in ks and const_text(at.a) and self.fresh(fi, at, node):
                 out.add(const_text(at.a))
+                continue
+            c = self._search_hit(at, ks)
+            if c and self.fresh(fi, at, node):
+                out.add(c)
         if isinstance(e, ast.Call) and isinstance(e.func, ast.Attribute) and not e.args and not e.keywords:
             inner = self.contained(fi, e.func.value, node, st)
             if e.func.attr in _CASE_METHODS:
@@ -1733,6 +1798,40 @@ class Flow:
             if sets:
                 out |= set.intersection(*sets)
         return out
+
+    @staticmethod
+    def _search_hit(at: "Atom", ks: set[str]):
+        """the constant c when the atom says that c occurs in the text: X.startswith(c) / X.endswith(c) / X.count(c)
+        truthy; X.find(c) / X.rfind(c) / X.index(c) compared with -1 / 0 and X.count(c) compared with 0 / 1 in any
+        spelling that means `found`."""
+
+        def search(x):
+            if isinstance(x, ast.Call) and isinstance(x.func, ast.Attribute) and x.func.attr in ("find", "rfind", "count", "startswith", "endswith", "index", "rindex") and len(x.args) == 1 and not x.keywords and norm(x.func.value) in ks:
+                c = const_text(x.args[0])
+                return (x.func.attr, c) if c else None
+            return None
+
+        if at.op == "truthy":
+            sc = search(at.a)
+            if sc and at.truth and sc[0] in ("startswith", "endswith", "count"):
+                return sc[1]
+            return None
+        if at.op not in ("lt", "eq"):
+            return None
+        for x, y, x_is_left in ((at.a, at.b, True), (at.b, at.a, False)):
+            sc, k = search(x), const_int(y)
+            if sc is None or k is None or sc[0] in ("startswith", "endswith"):
+                continue
+            floor = 0 if sc[0] == "count" else -1  # the smallest value the call can return = `not found`
+            if at.op == "eq":
+                found = (at.truth and k > floor) or (not at.truth and k == floor)
+            elif x_is_left:  # x < k
+                found = (not at.truth) and k > floor  # x >= k > floor
+            else:  # k < x
+                found = at.truth and k >= floor
+            if found:
+                return sc[1]
+        return None
 
     def stripped(self, fi: FuncInfo, e: ast.AST, node) -> bool:
         """e's value is already the result of a no-argument strip() (so e.strip() == e)."""
@@ -1762,6 +1861,19 @@ class Flow:
         return out
 
 
+def _match_minlen(rx: RegexConst, path: tuple) -> int:
+    """a match object: m[0] .. m[<number of groups>] exist (None is not subscriptable: that is the `match-attr` site,
+    not an IndexError); m[k] is group k."""
+    try:
+        if not path:
+            return rx.parsed().state.groups
+        if path[0][0] == "elem" and len(path) == 1 and path[0][1] >= 0:
+            return width(rx)[0] if path[0][1] == 0 else group_width(rx, path[0][1])[0]
+    except Exception:
+        return 0
+    return 0
+
+
 def _has_anchor(rx: RegexConst) -> bool:
     from .fold import sre_c
 
@@ -1784,3 +1896,1634 @@ def _has_anchor(rx: RegexConst) -> bool:
         return False
 
     return rec(rx.parsed())
+
+
+# =====================================================================
+# E5c: path-wise must-facts (used by the C07 "validated pairs" role)
+#
+# A small path-sensitive abstract interpreter.  Along ONE path of a function's CFG it keeps, per local value,
+#   * nullness            (is None / is not None / unknown),
+#   * "is an int"         (when not None),
+#   * difference bounds   x - y <= c  /  x - y < c  between values and the constant 0 (a closed difference-bound matrix:
+#                         `a >= b`, `not b < a`, `b <= a`, `a == b + 1`, `x = y + 1` ... all become the same constraints),
+#   * components          of values that are tuples (pair = (b, e); b2, e2 = pair; pair[0]),
+#   * truthiness          of boolean flags (`ok = a < b` splits the path),
+#   * other condition atoms as canonical text (only to prune paths that test the same thing twice).
+# Conditional expressions, `and` / `or` values and calls of package helpers split the path; a helper is summarised by the
+# abstract values it can return, related to the values of its parameters at entry (so a guard may live in the helper and
+# the use in the caller, or the reverse).  Loop heads forget every name the loop assigns, so that enumerating the
+# acyclic paths is a sound over-approximation of all executions.  Everything is a must-fact: unknown = no fact.
+
+ZERO = "0"
+_GID = [0]
+
+
+def _tighter(a: tuple[int, bool], b: tuple[int, bool]) -> bool:
+    return a[0] < b[0] or (a[0] == b[0] and a[1] and not b[1])
+
+
+class PS:
+    """facts along one path."""
+
+    __slots__ = ("null", "ints", "db", "gen", "tup", "opq", "grp", "deps", "truth", "org", "mt", "wm", "tags")
+
+    def __init__(self) -> None:
+        self.null: dict[str, bool] = {}
+        self.ints: set[str] = set()
+        self.db: dict[tuple[str, str], tuple[int, bool]] = {}
+        self.gen: dict[str, tuple[bool, frozenset]] = {}
+        self.tup: dict[str, tuple[str, ...]] = {}
+        self.opq: set[str] = set()
+        self.grp: dict[str, int] = {}
+        self.deps: dict[str, frozenset] = {}
+        self.truth: dict[str, bool] = {}
+        self.org: dict[str, str] = {}  # value produced by a tagged call (a `progress maker`)
+        self.mt: dict[str, tuple] = {}  # match object: (regex, subject local | None, (position var, offset) | None, method)
+        self.wm: dict[str, str] = {}  # text that is the whole match of that match object
+        self.tags: set[str] = set()  # tagged calls evaluated on this path
+
+    def copy(self) -> "PS":
+        s = PS()
+        s.null = dict(self.null)
+        s.ints = set(self.ints)
+        s.db = dict(self.db)
+        s.gen = dict(self.gen)
+        s.tup = dict(self.tup)
+        s.opq = set(self.opq)
+        s.grp = dict(self.grp)
+        s.deps = dict(self.deps)
+        s.truth = dict(self.truth)
+        s.org = dict(self.org)
+        s.mt = dict(self.mt)
+        s.wm = dict(self.wm)
+        s.tags = set(self.tags)
+        return s
+
+    # -- variables -----------------------------------------------------------
+    def members(self, v: str) -> list[str]:
+        g = self.grp.get(v)
+        if g is None:
+            return [v]
+        return [w for w, h in self.grp.items() if h == g]
+
+    def union(self, v: str, w: str) -> None:
+        gv, gw = self.grp.get(v), self.grp.get(w)
+        if gv is None and gw is None:
+            _GID[0] += 1
+            self.grp[v] = self.grp[w] = _GID[0]
+        elif gv is None:
+            self.grp[v] = gw  # type: ignore[assignment]
+        elif gw is None:
+            self.grp[w] = gv
+        elif gv != gw:
+            for x, h in list(self.grp.items()):
+                if h == gw:
+                    self.grp[x] = gv
+
+    def set_null(self, v: str, b: bool) -> bool:
+        for w in self.members(v):
+            cur = self.null.get(w)
+            if cur is not None and cur != b:
+                return False
+            self.null[w] = b
+            if b:
+                self.truth[w] = False
+        return True
+
+    def is_int(self, v: str) -> bool:
+        return v == ZERO or v in self.ints
+
+    def kill(self, v: str) -> None:
+        for c in self.tup.pop(v, ()):
+            self.kill(c)
+        self.null.pop(v, None)
+        self.ints.discard(v)
+        self.opq.discard(v)
+        self.grp.pop(v, None)
+        self.truth.pop(v, None)
+        self.deps.pop(v, None)
+        self.org.pop(v, None)
+        self.mt.pop(v, None)
+        self.wm.pop(v, None)
+        if self.mt:
+            for k3 in [k3 for k3, m_ in self.mt.items() if m_[1] == v or (m_[2] is not None and m_[2][0] == v)]:
+                del self.mt[k3]
+        if self.wm:
+            for k3 in [k3 for k3, m_ in self.wm.items() if m_ == v]:
+                del self.wm[k3]
+        if self.db:
+            for k in [k for k in self.db if k[0] == v or k[1] == v]:
+                del self.db[k]
+        for t_, names in list(self.deps.items()):
+            if v in names:
+                self.kill(t_)
+        for k2 in [k2 for k2, (_, names) in self.gen.items() if v in names]:
+            del self.gen[k2]
+
+    def unknown(self, v: str, opaque: bool = False) -> None:
+        self.kill(v)
+        if opaque:
+            self.opq.add(v)
+
+    def copy_var(self, src: str, dst: str) -> None:
+        """dst (fresh) becomes the same value as src."""
+        if src in self.null:
+            self.null[dst] = self.null[src]
+        if src in self.ints:
+            self.ints.add(dst)
+        if src in self.opq:
+            self.opq.add(dst)
+        if src in self.truth:
+            self.truth[dst] = self.truth[src]
+        if src in self.org:
+            self.org[dst] = self.org[src]
+        if src in self.mt:
+            self.mt[dst] = self.mt[src]
+        if src in self.wm:
+            self.wm[dst] = self.wm[src]
+        if src in self.tup:
+            comps = []
+            for i, c in enumerate(self.tup[src]):
+                d = f"{dst}#{i}"
+                self.copy_var(c, d)
+                comps.append(d)
+            self.tup[dst] = tuple(comps)
+            return
+        self.union(src, dst)
+        if self.null.get(src) is not True:
+            self.add(dst, src, 0)
+            self.add(src, dst, 0)
+        ls = f"len({src})"
+        if ls in self.deps:
+            ld = self.lenvar(dst)
+            self.add(ld, ls, 0)
+            self.add(ls, ld, 0)
+
+    def lenvar(self, v: str) -> str:
+        """the variable that stands for len(v) (created on demand; forgotten when v is rebound)."""
+        k = f"len({v})"
+        if k not in self.deps:
+            self.deps[k] = frozenset({v})
+            self.null[k] = False
+            self.ints.add(k)
+            self.add(ZERO, k, 0)
+        return k
+
+    # -- difference bounds ----------------------------------------------------
+    def bound(self, x: str, y: str) -> tuple[int, bool] | None:
+        if x == y:
+            return (0, False)
+        return self.db.get((x, y))
+
+    def add(self, x: str, y: str, c: int, strict: bool = False) -> bool:
+        """x - y <= c (< c when strict); False when the facts become contradictory."""
+        if strict and self.is_int(x) and self.is_int(y):
+            c, strict = c - 1, False
+        if x == y:
+            return c > 0 or (c == 0 and not strict)
+        cur = self.db.get((x, y))
+        if cur is not None and not _tighter((c, strict), cur):
+            return True
+        vs = {ZERO, x, y}
+        for a, b in self.db:
+            vs.add(a)
+            vs.add(b)
+        to_x = {i: self.bound(i, x) for i in vs}
+        from_y = {j: self.bound(y, j) for j in vs}
+        for i, dix in to_x.items():
+            if dix is None:
+                continue
+            for j, dyj in from_y.items():
+                if dyj is None:
+                    continue
+                nb = (dix[0] + c + dyj[0], dix[1] or strict or dyj[1])
+                if nb[1] and self.is_int(i) and self.is_int(j):
+                    nb = (nb[0] - 1, False)
+                if i == j:
+                    if nb[0] < 0 or (nb[0] == 0 and nb[1]):
+                        return False
+                    continue
+                cur = self.db.get((i, j))
+                if cur is None or _tighter(nb, cur):
+                    self.db[(i, j)] = nb
+        return True
+
+    def entails(self, x: str, y: str, c: int, strict: bool = False) -> bool:
+        b = self.bound(x, y)
+        return b is not None and (b == (c, strict) or _tighter(b, (c, strict)))
+
+    def exact(self, v: str) -> int | None:
+        hi, lo = self.db.get((v, ZERO)), self.db.get((ZERO, v))
+        if hi is not None and lo is not None and not hi[1] and not lo[1] and hi[0] == -lo[0]:
+            return hi[0]
+        return None
+
+    # -- restriction ----------------------------------------------------------
+    def closure_of(self, roots: t.Iterable[str]) -> set[str]:
+        keep: set[str] = set()
+        work = list(roots)
+        while work:
+            v = work.pop()
+            if v in keep:
+                continue
+            keep.add(v)
+            work.extend(self.tup.get(v, ()))
+        return keep
+
+    def project(self, roots: t.Iterable[str], gen_names: t.Iterable[str] = ()) -> "PS":
+        keep = self.closure_of(roots)
+        s = PS()
+        gn = set(gen_names)
+        if gn:
+            s.gen = {k: v for k, v in self.gen.items() if v[1] and v[1] <= gn}
+        s.null = {v: b for v, b in self.null.items() if v in keep}
+        s.ints = {v for v in self.ints if v in keep}
+        s.opq = {v for v in self.opq if v in keep}
+        s.truth = {v: b for v, b in self.truth.items() if v in keep}
+        s.tup = {v: c for v, c in self.tup.items() if v in keep}
+        s.grp = {v: g for v, g in self.grp.items() if v in keep}
+        k2 = keep | {ZERO}
+        s.db = {k: b for k, b in self.db.items() if k[0] in k2 and k[1] in k2}
+        return s
+
+    def key(self) -> tuple:
+        groups: dict[int, list[str]] = {}
+        for v, g in self.grp.items():
+            groups.setdefault(g, []).append(v)
+        gs = sorted(tuple(sorted(m)) for m in groups.values() if len(m) > 1)
+        return (tuple(sorted((k, v[0]) for k, v in self.gen.items())), tuple(sorted(self.null.items())), tuple(sorted(self.ints)), tuple(sorted(self.opq)), tuple(sorted(self.truth.items())), tuple(sorted(self.tup.items())), tuple(sorted(self.db.items())), tuple(gs))
+
+    def renamed(self, ren: t.Callable[[str], str | None]) -> "PS":
+        """a copy with every variable v replaced by ren(v); facts about a variable mapped to None are dropped."""
+        s = PS()
+        for v, b in self.null.items():
+            if ren(v) is not None:
+                s.null[ren(v)] = b  # type: ignore[index]
+        s.ints = {ren(v) for v in self.ints if ren(v) is not None}  # type: ignore[misc]
+        s.opq = {ren(v) for v in self.opq if ren(v) is not None}  # type: ignore[misc]
+        for v, b in self.truth.items():
+            if ren(v) is not None:
+                s.truth[ren(v)] = b  # type: ignore[index]
+        for v, comps in self.tup.items():
+            if ren(v) is not None and all(ren(c) is not None for c in comps):
+                s.tup[ren(v)] = tuple(ren(c) for c in comps)  # type: ignore[index,misc]
+        for v, g in self.grp.items():
+            if ren(v) is not None:
+                s.grp[ren(v)] = g  # type: ignore[index]
+        for (x, y), b in self.db.items():
+            rx = ZERO if x == ZERO else ren(x)
+            ry = ZERO if y == ZERO else ren(y)
+            if rx is not None and ry is not None:
+                s.db[(rx, ry)] = b
+        return s
+
+    def merge(self, other: "PS") -> bool:
+        """conjoin the facts of `other` (already renamed into this state's variables); False when contradictory."""
+        for v, b in other.null.items():
+            if not self.set_null(v, b):
+                return False
+        self.ints |= other.ints
+        self.opq |= other.opq
+        for v, b in other.truth.items():
+            cur = self.truth.get(v)
+            if cur is not None and cur != b:
+                return False
+            self.truth[v] = b
+        for v, comps in other.tup.items():
+            self.tup[v] = comps
+        groups: dict[int, list[str]] = {}
+        for v, g in other.grp.items():
+            groups.setdefault(g, []).append(v)
+        for m in groups.values():
+            for w in m[1:]:
+                self.union(m[0], w)
+        for v in list(other.null):
+            # nullness learnt for one member of a group holds for all
+            if not self.set_null(v, other.null[v]):
+                return False
+        for (x, y), (c, strict) in other.db.items():
+            if not self.add(x, y, c, strict):
+                return False
+        return True
+
+    def describe(self, vs: t.Iterable[str]) -> str:
+        out = []
+        for v in vs:
+            if self.null.get(v) is True:
+                out.append(f"{v} is None")
+                continue
+            bits = []
+            if self.null.get(v) is False:
+                bits.append("not None")
+            if v in self.ints:
+                bits.append("int")
+            if v in self.opq:
+                bits.append("origin not modelled")
+            for (x, y), (c, strict) in sorted(self.db.items()):
+                if x == v and (y == ZERO or y in vs):
+                    bits.append(f"{x} - {y} {'<' if strict else '<='} {c}")
+                elif y == v and x == ZERO:
+                    bits.append(f"{y} {'>' if strict else '>='} {-c}")
+            out.append(f"{v}: " + (", ".join(bits) if bits else "nothing known"))
+        return "; ".join(out)
+
+
+class _TooMany(Exception):
+    pass
+
+
+def _strip_walrus(e: ast.AST) -> ast.AST:
+    """the expression with every `(x := value)` replaced by x (the assignment has been evaluated already)."""
+    if not any(isinstance(x, ast.NamedExpr) for x in ast.walk(e)):
+        return e
+
+    class T(ast.NodeTransformer):
+        def visit_NamedExpr(self, n):  # noqa: N802
+            return ast.Name(n.target.id, ast.Load())
+
+    return ast.fix_missing_locations(T().visit(ast.parse(ast.unparse(e), mode="eval").body))
+
+
+def _empty_needs_end(seq) -> bool:
+    """the regex sequence can match the empty string only by passing an end-of-string assertion."""
+    from .fold import sre_c
+
+    for op, av in seq:
+        if op is sre_c.AT:
+            if av in (sre_c.AT_END, sre_c.AT_END_STRING):
+                return True
+            continue
+        if op in (sre_c.MAX_REPEAT, sre_c.MIN_REPEAT):
+            if av[0] >= 1 and (av[2].getwidth()[0] >= 1 or _empty_needs_end(av[2])):
+                return True
+            continue
+        if op is sre_c.SUBPATTERN:
+            if av[3].getwidth()[0] >= 1 or _empty_needs_end(av[3]):
+                return True
+            continue
+        if op is sre_c.BRANCH:
+            if all(b.getwidth()[0] >= 1 or _empty_needs_end(b) for b in av[1]):
+                return True
+            continue
+        if op in (sre_c.ASSERT, sre_c.ASSERT_NOT, sre_c.GROUPREF, sre_c.GROUPREF_EXISTS):
+            continue
+        return True  # literal / class / any: width >= 1
+    return False
+
+
+def _pure_text(e: ast.AST) -> bool:
+    """an expression whose value depends only on the names in it (names, constants, attribute / item access, str methods)."""
+    if isinstance(e, (ast.Name, ast.Constant)):
+        return True
+    if isinstance(e, ast.Attribute):
+        return _pure_text(e.value)
+    if isinstance(e, ast.Subscript):
+        return _pure_text(e.value) and (isinstance(e.slice, ast.Constant) or (isinstance(e.slice, ast.Slice) and all(x is None or const_int(x) is not None for x in (e.slice.lower, e.slice.upper, e.slice.step))))
+    if isinstance(e, ast.Call) and isinstance(e.func, ast.Attribute) and e.func.attr in _NONNULL_METHODS and not e.keywords:
+        return _pure_text(e.func.value) and all(isinstance(x, ast.Constant) for x in e.args)
+    return False
+
+
+def _subst_key(key: str, mp: dict[str, ast.AST]) -> tuple[str, bool, set[str]] | None:
+    """the canonical atom `key` with names replaced by expressions: (new key, polarity, names)."""
+    from .guards import canon
+
+    try:
+        tree = ast.parse(key, mode="eval").body
+    except SyntaxError:
+        return None
+
+    class T(ast.NodeTransformer):
+        def visit_Name(self, n):  # noqa: N802
+            if n.id in mp:
+                return ast.parse(ast.unparse(mp[n.id]), mode="eval").body
+            return n
+
+    new = ast.fix_missing_locations(T().visit(tree))
+    k, pol = canon(new)
+    return k, pol, set(astq.names_in(new))
+
+
+def _import_generic(st: "PS", other: "PS", binding: dict[str, t.Any]) -> bool:
+    """conjoin other's textual atoms (over parameter names) into st, rewritten over the bound argument expressions."""
+    for key, (truth, names) in other.gen.items():
+        mp = {}
+        for nm in names:
+            b = binding.get(nm)
+            if b is None or not _pure_text(b[1]):
+                mp = None
+                break
+            mp[nm] = b[1]
+        if mp is None:
+            continue
+        got = _subst_key(key, mp)
+        if got is None:
+            continue
+        k2, pol, names2 = got
+        val = truth == pol
+        cur = st.gen.get(k2)
+        if cur is not None:
+            if cur[0] != val:
+                return False
+            continue
+        st.gen[k2] = (val, frozenset(names2))
+    return True
+
+
+_NONNULL_METHODS = {
+    "strip", "lstrip", "rstrip", "lower", "upper", "casefold", "title", "split", "rsplit", "partition", "rpartition", "replace", "join",
+    "format", "encode", "decode", "startswith", "endswith", "splitlines", "find", "rfind", "index", "count", "isdigit", "items", "keys", "values", "copy",
+}
+_INT_METHODS = {"find", "rfind", "index", "rindex", "count"}
+_INT_ANN = {"int"}
+_OPT_INT_ANN = {"int | None", "None | int", "Optional[int]", "t.Optional[int]", "typing.Optional[int]"}
+
+
+class PathSim:
+    LIMIT = 200000
+
+    def __init__(self, flow: "Flow"):
+        self.flow = flow
+        self.repo = flow.repo
+        self._sum: dict[str, list[PS] | None] = {}
+        self._busy: set[str] = set()
+        self._n = 0
+        self._locals: dict[str, set[str]] = {}
+        self._loops: dict[str, dict[int, set[str]]] = {}
+        self._mono: dict[tuple[str, int], dict[str, set[str]]] = {}
+        self._inv: dict[tuple, tuple] = {}
+        self.steps = 0
+        self.cur_node = None  # CFG node being evaluated (for the guard-based bounds of Flow)
+        self.call_tag: t.Callable[[FuncInfo, ast.Call], str | None] | None = None  # marks `progress maker` calls
+
+    def tmp(self, tag: str = "") -> str:
+        self._n += 1
+        return f"${tag}{self._n}"
+
+    # -- per function ----------------------------------------------------------
+    def locals_of(self, fi: FuncInfo) -> set[str]:
+        if fi.fq not in self._locals:
+            a = fi.node.args  # type: ignore[attr-defined]
+            names = {x.arg for x in a.posonlyargs + a.args + a.kwonlyargs}
+            for x in (a.vararg, a.kwarg):
+                if x is not None:
+                    names.add(x.arg)
+            for n in walk_no_nested(fi.node):
+                if isinstance(n, ast.Name) and isinstance(n.ctx, (ast.Store, ast.Del)):
+                    names.add(n.id)
+                elif isinstance(n, ast.ExceptHandler) and n.name:
+                    names.add(n.name)
+            self._locals[fi.fq] = names
+        return self._locals[fi.fq]
+
+    def loop_assigned(self, fi: FuncInfo) -> dict[int, set[str]]:
+        """CFG head node id of every loop -> names (re)bound somewhere in that loop."""
+        if fi.fq not in self._loops:
+            cfg = cfg_of(fi)
+            out: dict[int, set[str]] = {}
+            for n in walk_no_nested(fi.node):
+                if isinstance(n, (ast.For, ast.AsyncFor, ast.While)):
+                    names: set[str] = set()
+                    for x in [n, *walk_no_nested(n)]:
+                        if isinstance(x, ast.Name) and isinstance(x.ctx, (ast.Store, ast.Del)):
+                            names.add(x.id)
+                        elif isinstance(x, ast.ExceptHandler) and x.name:
+                            names.add(x.name)
+                    for h in cfg.by_ast.get(id(n), []):
+                        if h.kind in ("loop", "join"):
+                            out[h.id] = names
+            self._loops[fi.fq] = out
+        return self._loops[fi.fq]
+
+    def entry_state(self, fi: FuncInfo, shadows: bool = False) -> PS:
+        st = PS()
+        a = fi.node.args  # type: ignore[attr-defined]
+        for x in a.posonlyargs + a.args + a.kwonlyargs:
+            ann = x.annotation
+            if isinstance(ann, ast.Constant) and isinstance(ann.value, str):
+                txt = " ".join(ann.value.split())
+            else:
+                txt = norm(ann) if ann is not None else ""
+            if txt in _INT_ANN:
+                st.null[x.arg] = False
+                st.ints.add(x.arg)
+            elif txt in _OPT_INT_ANN:
+                st.ints.add(x.arg)
+            elif txt in ("str", "bytes", "bool"):
+                st.null[x.arg] = False
+            if shadows:
+                st.copy_var(x.arg, x.arg + "@")
+        return st
+
+    # -- expressions -------------------------------------------------------------
+    def var_of(self, fi: FuncInfo, st: PS, e: ast.AST) -> str | None:
+        """the state variable an expression denotes (a local, a component of a tuple-valued local)."""
+        if isinstance(e, ast.NamedExpr):
+            e = e.target
+        if isinstance(e, ast.Name):
+            return e.id
+        if isinstance(e, ast.Subscript):
+            k = const_int(e.slice)
+            base = self.var_of(fi, st, e.value)
+            if k is not None and base is not None and base in st.tup:
+                comps = st.tup[base]
+                if -len(comps) <= k < len(comps):
+                    return comps[k]
+        return None
+
+    def operand(self, fi: FuncInfo, st: PS, e: ast.AST) -> tuple[str, int] | None:
+        """(variable, offset) with value(e) == variable + offset, for the operands of an order comparison."""
+        c = const_int(e)
+        if c is not None:
+            return (ZERO, c)
+        if isinstance(e, ast.BinOp) and isinstance(e.op, (ast.Add, ast.Sub)):
+            cr, cl = const_int(e.right), const_int(e.left)
+            if cr is not None:
+                o = self.operand(fi, st, e.left)
+                return None if o is None else (o[0], o[1] + (cr if isinstance(e.op, ast.Add) else -cr))
+            if cl is not None and isinstance(e.op, ast.Add):
+                o = self.operand(fi, st, e.right)
+                return None if o is None else (o[0], o[1] + cl)
+            return None
+        if isinstance(e, ast.Call) and dotted(e.func) == "len" and len(e.args) == 1 and not e.keywords:
+            av = self.var_of(fi, st, e.args[0])
+            if av is not None:
+                return (st.lenvar(av), 0)
+            key = norm(e)
+            if key not in st.deps:
+                st.deps[key] = frozenset(astq.names_in(e))
+                st.null[key] = False
+                st.ints.add(key)
+                st.add(ZERO, key, 0)
+            return (key, 0)
+        v = self.var_of(fi, st, e)
+        if v is None or v in st.tup or st.null.get(v) is True:
+            return None
+        return (v, 0)
+
+    def eval(self, fi: FuncInfo, st: PS, e: ast.AST | None, tv: str) -> list[PS]:
+        """bind the fresh variable tv to the value of e; consumes st, returns the resulting states."""
+        if e is None or (isinstance(e, ast.Constant) and e.value is None):
+            st.set_null(tv, True)
+            return [st]
+        c = const_int(e)
+        if c is not None:
+            st.null[tv] = False
+            st.ints.add(tv)
+            st.truth[tv] = c != 0
+            st.add(tv, ZERO, c)
+            st.add(ZERO, tv, -c)
+            return [st]
+        if isinstance(e, ast.Constant):
+            st.null[tv] = False
+            if isinstance(e.value, (bool, str, bytes)):
+                st.truth[tv] = bool(e.value)
+            if isinstance(e.value, (str, bytes)):
+                lv = st.lenvar(tv)
+                st.add(lv, ZERO, len(e.value))
+                st.add(ZERO, lv, -len(e.value))
+            return [st]
+        if isinstance(e, ast.Name):
+            if e.id not in self.locals_of(fi) and not (hasattr(e, "_parent") and bound_in_enclosing_comp(e, stop=fi.node) is not None):
+                try:
+                    v = self.flow.folder.name(fi.module, e.id)
+                except Exception:
+                    v = None
+                if isinstance(v, int) and not isinstance(v, bool):
+                    return self.eval(fi, st, ast.Constant(v), tv)
+                st.opq.add(tv)
+                return [st]
+            st.copy_var(e.id, tv)
+            return [st]
+        if isinstance(e, ast.NamedExpr):
+            out = []
+            for s in self.eval(fi, st, e.value, tv):
+                s.kill(e.target.id)
+                s.copy_var(tv, e.target.id)
+                out.append(s)
+            return out
+        if isinstance(e, ast.IfExp):
+            out = []
+            for s in self.assume(fi, st.copy(), e.test, True):
+                out += self.eval(fi, s, e.body, tv)
+            for s in self.assume(fi, st, e.test, False):
+                out += self.eval(fi, s, e.orelse, tv)
+            return out
+        if isinstance(e, ast.BoolOp):
+            return self._eval_boolop(fi, st, list(e.values), isinstance(e.op, ast.And), tv)
+        if isinstance(e, ast.Compare) or (isinstance(e, ast.UnaryOp) and isinstance(e.op, ast.Not)):
+            return self._eval_bool(fi, st, e, tv)
+        if isinstance(e, ast.UnaryOp) and isinstance(e.op, (ast.USub, ast.UAdd)):
+            t1 = self.tmp()
+            out = []
+            for s in self.eval(fi, st, e.operand, t1):
+                s.null[tv] = False
+                if t1 in s.ints:
+                    s.ints.add(tv)
+                if t1 in s.opq:
+                    s.opq.add(tv)
+                if isinstance(e.op, ast.UAdd):
+                    s.add(tv, t1, 0)
+                    s.add(t1, tv, 0)
+                else:
+                    lo, hi = s.db.get((ZERO, t1)), s.db.get((t1, ZERO))
+                    if lo is not None:
+                        s.add(tv, ZERO, lo[0], lo[1])
+                    if hi is not None:
+                        s.add(ZERO, tv, hi[0], hi[1])
+                s.kill(t1)
+                out.append(s)
+            return out
+        if isinstance(e, ast.BinOp):
+            return self._eval_binop(fi, st, e, tv)
+        if isinstance(e, (ast.Tuple, ast.List)):
+            if any(isinstance(x, ast.Starred) for x in e.elts):
+                st.null[tv] = False
+                st.opq.add(tv)
+                return [st]
+            states = [st]
+            comps = tuple(f"{tv}#{i}" for i in range(len(e.elts)))
+            for x, cv in zip(e.elts, comps):
+                nxt: list[PS] = []
+                for s in states:
+                    nxt += self.eval(fi, s, x, cv)
+                states = nxt
+            for s in states:
+                s.tup[tv] = comps
+                s.null[tv] = False
+                s.truth[tv] = bool(comps)
+            return states
+        if isinstance(e, ast.Subscript) and isinstance(e.slice, ast.Slice):
+            return self._eval_slice(fi, st, e, tv)
+        if isinstance(e, ast.Subscript):
+            v = self.var_of(fi, st, e)
+            if v is not None:
+                st.copy_var(v, tv)
+                return [st]
+            k = const_int(e.slice)
+            mv = self.var_of(fi, st, e.value)
+            if k is not None and mv is not None and mv in st.mt:
+                return self._match_part(fi, st, mv, "group", [k], tv)
+            if k is not None and k >= 1 and isinstance(e.value, ast.Call) and isinstance(e.value.func, ast.Attribute) and e.value.func.attr == "split" and e.value.args and const_text(e.value.args[0]):
+                # element k >= 1 of X.split(sep, ...): at least one separator was cut off in front of it
+                t1 = self.tmp()
+                out = []
+                for s in self.eval(fi, st, e.value.func.value, t1):
+                    s.null[tv] = False
+                    s.add(s.lenvar(tv), s.lenvar(t1), -len(const_text(e.value.args[0])))
+                    s.kill(t1)
+                    out.append(s)
+                return out
+            if k is not None and isinstance(e.value, ast.Call):
+                t1 = self.tmp()
+                out = []
+                for s in self.eval(fi, st, e.value, t1):
+                    comps = s.tup.get(t1)
+                    if comps is not None and -len(comps) <= k < len(comps):
+                        s.copy_var(comps[k], tv)
+                    else:
+                        s.opq.add(tv)
+                    s.kill(t1)
+                    out.append(s)
+                return out
+            st.opq.add(tv)
+            return [st]
+        if isinstance(e, ast.Call):
+            return self._eval_call(fi, st, e, tv)
+        if isinstance(e, (ast.JoinedStr, ast.Dict, ast.Set, ast.ListComp, ast.SetComp, ast.DictComp, ast.GeneratorExp, ast.Lambda)):
+            st.null[tv] = False
+            return [st]
+        st.opq.add(tv)
+        return [st]
+
+    def _eval_bool(self, fi: FuncInfo, st: PS, e: ast.AST, tv: str) -> list[PS]:
+        out = []
+        for truth in (True, False):
+            for s in self.assume(fi, st.copy(), e, truth):
+                s.null[tv] = False
+                s.truth[tv] = truth
+                out.append(s)
+        return out
+
+    def _eval_boolop(self, fi: FuncInfo, st: PS, values: list[ast.AST], is_and: bool, tv: str) -> list[PS]:
+        """`a and b` is a when a is falsy else b; `a or b` is a when a is truthy else b."""
+        if len(values) == 1:
+            return self.eval(fi, st, values[0], tv)
+        out: list[PS] = []
+        t1 = self.tmp()
+        for s in self.eval(fi, st, values[0], t1):
+            known = s.truth.get(t1)
+            for truth in (True, False):
+                if known is not None and known != truth:
+                    continue
+                for s2 in self.assume(fi, s.copy(), values[0], truth):
+                    if truth != is_and:  # the first operand is the result
+                        s2.copy_var(t1, tv)
+                        s2.truth[tv] = truth
+                        if truth:
+                            s2.set_null(tv, False)
+                        s2.kill(t1)
+                        out.append(s2)
+                    else:
+                        s2.kill(t1)
+                        out += self._eval_boolop(fi, s2, values[1:], is_and, tv)
+        return out
+
+    def _eval_binop(self, fi: FuncInfo, st: PS, e: ast.BinOp, tv: str) -> list[PS]:
+        t1, t2 = self.tmp(), self.tmp()
+        out = []
+        for s1 in self.eval(fi, st, e.left, t1):
+            for s in self.eval(fi, s1, e.right, t2):
+                s.null[tv] = False
+                if t1 in s.ints and t2 in s.ints and isinstance(e.op, (ast.Add, ast.Sub, ast.Mult, ast.FloorDiv, ast.Mod)):
+                    s.ints.add(tv)
+                if t1 in s.opq or t2 in s.opq:
+                    s.opq.add(tv)
+                c1, c2 = s.exact(t1), s.exact(t2)
+                if isinstance(e.op, ast.Add):
+                    if c2 is not None:
+                        s.add(tv, t1, c2)
+                        s.add(t1, tv, -c2)
+                    elif c1 is not None:
+                        s.add(tv, t2, c1)
+                        s.add(t2, tv, -c1)
+                    else:
+                        for a_, b_ in ((t1, t2), (t2, t1)):
+                            lo = s.db.get((ZERO, a_))  # a_ >= -lo  =>  tv >= b_ - lo
+                            if lo is not None:
+                                s.add(b_, tv, lo[0], lo[1])
+                            hi = s.db.get((a_, ZERO))  # a_ <= hi  =>  tv <= b_ + hi
+                            if hi is not None:
+                                s.add(tv, b_, hi[0], hi[1])
+                elif isinstance(e.op, ast.Sub):
+                    if c2 is not None:
+                        s.add(tv, t1, -c2)
+                        s.add(t1, tv, c2)
+                    else:
+                        d12, d21 = s.db.get((t1, t2)), s.db.get((t2, t1))
+                        if d12 is not None:
+                            s.add(tv, ZERO, d12[0], d12[1])
+                        if d21 is not None:
+                            s.add(ZERO, tv, d21[0], d21[1])
+                s.kill(t1)
+                s.kill(t2)
+                out.append(s)
+        return out
+
+    def _eval_call(self, fi: FuncInfo, st: PS, e: ast.Call, tv: str) -> list[PS]:
+        tag = self.call_tag(fi, e) if self.call_tag is not None else None
+        out = self._eval_call0(fi, st, e, tv)
+        if tag is not None:
+            for s in out:
+                s.org[tv] = tag
+                s.tags.add(tag)
+        return out
+
+    def _eval_slice(self, fi: FuncInfo, st: PS, e: ast.Subscript, tv: str) -> list[PS]:
+        """X[a:b]: never longer than X; shorter by the lower bound (when that is known to lie inside X, else by one)."""
+        sl = e.slice
+        t1 = self.tmp()
+        out = []
+        for s in self.eval(fi, st, e.value, t1):
+            states = [s]
+            tl = None
+            if sl.lower is not None and sl.step is None:  # type: ignore[attr-defined]
+                tl = self.tmp()
+                states = self.eval(fi, s, sl.lower, tl)  # type: ignore[attr-defined]
+            for s2 in states:
+                s2.null[tv] = False
+                if t1 in s2.opq:
+                    s2.opq.add(tv)
+                l1, lt = s2.lenvar(t1), s2.lenvar(tv)
+                s2.add(lt, l1, 0)
+                if tl is not None:
+                    lo = s2.db.get((ZERO, tl))  # tl >= -lo[0]
+                    if lo is not None and -lo[0] >= 1:
+                        inside = s2.entails(tl, l1, 0)
+                        s2.add(lt, l1, lo[0] if inside else -1)
+                    s2.kill(tl)
+                if sl.upper is not None and sl.step is None and const_int(sl.upper) is not None and const_int(sl.upper) >= 0 and (sl.lower is None or const_int(sl.lower) == 0):  # type: ignore[attr-defined]
+                    s2.add(lt, ZERO, const_int(sl.upper))  # type: ignore[attr-defined]
+                s2.kill(t1)
+                out.append(s2)
+        return out
+
+    def _match_part(self, fi: FuncInfo, st: PS, mv: str, what: str, args: list, tv: str) -> list[PS]:
+        """m.end() / m.start() / m.span() / m.group(k) / m[k] for a match object with known regex, subject and position."""
+        rx, subj, pos, method = st.mt[mv]
+        try:
+            minw = width(rx)[0]
+            needs_end = not (rx.flags & re.M) and _empty_needs_end(rx.parsed())
+        except Exception:
+            minw, needs_end = 0, False
+        ls = st.lenvar(subj) if subj is not None else None
+
+        def end_var(v: str) -> None:
+            st.null[v] = False
+            st.ints.add(v)
+            st.add(ZERO, v, 0)
+            if ls is not None:
+                st.add(v, ls, 0)
+            adv = minw
+            if pos is not None:
+                pv, off = pos
+                if adv == 0 and needs_end and ls is not None and st.entails(pv, ls, -off, True):
+                    adv = 1  # an empty match needs the end of the text at its position; the position is before the end
+                st.add(pv, v, -off - adv)  # v >= pos + adv
+            else:
+                if adv == 0 and needs_end and ls is not None and st.entails(ZERO, ls, -1):
+                    adv = 1
+                st.add(ZERO, v, -adv)
+
+        def start_var(v: str) -> None:
+            st.null[v] = False
+            st.ints.add(v)
+            st.add(ZERO, v, 0)
+            if ls is not None:
+                st.add(v, ls, 0)
+            if pos is not None:
+                pv, off = pos
+                st.add(pv, v, -off)
+                if method in ("match", "fullmatch"):
+                    st.add(v, pv, off)
+            elif method in ("match", "fullmatch"):
+                st.add(v, ZERO, 0)
+
+        if what == "end" and not args:
+            end_var(tv)
+        elif what == "start" and not args:
+            start_var(tv)
+        elif what == "span" and not args:
+            start_var(f"{tv}#0")
+            end_var(f"{tv}#1")
+            st.tup[tv] = (f"{tv}#0", f"{tv}#1")
+            st.null[tv] = False
+        elif what == "group" and (not args or args == [0]):
+            st.null[tv] = False
+            st.wm[tv] = mv
+            st.add(ZERO, st.lenvar(tv), -minw)
+            if minw >= 1:
+                st.truth[tv] = True
+        elif what in ("end", "start", "span"):
+            st.null[tv] = False
+        # group(k >= 1) may be None when the group did not take part
+        return [st]
+
+    def _eval_call0(self, fi: FuncInfo, st: PS, e: ast.Call, tv: str) -> list[PS]:
+        d = dotted(e.func)
+        li = fi.module.local_imports(fi.node)
+        fq = self.repo.resolve(fi.module, d, li) if d else None
+        last = (d or "").rsplit(".", 1)[-1]
+        if last == "cast" and len(e.args) == 2:
+            return self.eval(fi, st, e.args[1], tv)
+        if fq == "builtins.len" and len(e.args) == 1 and not e.keywords:
+            t1 = self.tmp()
+            out = []
+            lb = 0
+            if self.cur_node is not None:
+                try:
+                    lb = self.flow.minlen(fi, e.args[0], self.cur_node)
+                except Exception:
+                    lb = 0
+            for s in self.eval(fi, st, e.args[0], t1):
+                l1 = s.lenvar(t1)
+                s.null[tv] = False
+                s.ints.add(tv)
+                s.add(tv, l1, 0)
+                s.add(l1, tv, 0)
+                if 0 < lb < INF:
+                    s.add(ZERO, tv, -lb)
+                s.kill(t1)
+                out.append(s)
+            return out
+        if fq in ("builtins.int", "builtins.len", "builtins.abs", "builtins.ord", "builtins.hash"):
+            st.null[tv] = False
+            st.ints.add(tv)
+            if fq in ("builtins.len", "builtins.ord"):
+                st.add(ZERO, tv, 0)
+            if fq == "builtins.abs" and len(e.args) == 1:
+                st.ints.discard(tv)
+                t1 = self.tmp()
+                out = []
+                for s in self.eval(fi, st, e.args[0], t1):
+                    if t1 in s.ints:
+                        s.ints.add(tv)
+                    s.add(ZERO, tv, 0)
+                    s.kill(t1)
+                    out.append(s)
+                return out
+            return [st]
+        if fq in ("builtins.max", "builtins.min") and e.args and not e.keywords and len(e.args) >= 2:
+            states = [st]
+            ts = []
+            for x in e.args:
+                t1 = self.tmp()
+                ts.append(t1)
+                nxt: list[PS] = []
+                for s in states:
+                    nxt += self.eval(fi, s, x, t1)
+                states = nxt
+            for s in states:
+                s.null[tv] = False
+                if all(t1 in s.ints for t1 in ts):
+                    s.ints.add(tv)
+                if any(t1 in s.opq for t1 in ts):
+                    s.opq.add(tv)
+                for t1 in ts:
+                    if fq == "builtins.max":
+                        s.add(t1, tv, 0)
+                    else:
+                        s.add(tv, t1, 0)
+                for t1 in ts:
+                    s.kill(t1)
+            return states
+        if fq == "builtins.bool" and len(e.args) == 1:
+            return self._eval_bool(fi, st, e.args[0], tv)
+        if fq in ("builtins.float", "builtins.str", "builtins.bytes", "builtins.list", "builtins.tuple", "builtins.dict", "builtins.set", "builtins.sorted", "builtins.repr", "builtins.isinstance", "builtins.callable", "builtins.any", "builtins.all"):
+            st.null[tv] = False
+            return [st]
+        gs = self.flow.resolve_callee(fi, e)
+        if gs:
+            out = []
+            for g in gs:
+                out += self._call_summary(fi, st.copy(), e, tv, g)
+            return out
+        if fq and fq.startswith("werkzeug.") and self.repo.try_cls(fq) is not None:
+            st.null[tv] = False
+            return [st]
+        if isinstance(e.func, ast.Attribute):
+            got = self._eval_method(fi, st, e, tv)
+            if got is not None:
+                return got
+        if isinstance(e.func, ast.Attribute) and e.func.attr in _NONNULL_METHODS:
+            st.null[tv] = False
+            if e.func.attr in _INT_METHODS:
+                st.ints.add(tv)
+            return [st]
+        st.opq.add(tv)
+        return [st]
+
+    def _eval_method(self, fi: FuncInfo, st: PS, e: ast.Call, tv: str) -> list[PS] | None:
+        """methods of match objects, regexes and texts whose result is related to the receiver."""
+        m = e.func.attr  # type: ignore[attr-defined]
+        recv = e.func.value  # type: ignore[attr-defined]
+        rv = self.var_of(fi, st, recv)
+        if rv is not None and rv in st.mt and m in ("end", "start", "span", "group"):
+            ks = [const_int(x) for x in e.args]
+            if m == "group" and (len(ks) > 1 or any(k is None for k in ks)):
+                st.opq.add(tv)
+                return [st]
+            return self._match_part(fi, st, rv, m, ks, tv)
+        if m in ("match", "search", "fullmatch") and e.args:
+            rx = self.flow.fold_regex(fi, recv)
+            if rx is not None:
+                subj = e.args[0].id if isinstance(e.args[0], ast.Name) and e.args[0].id in self.locals_of(fi) else None
+                pos = self.operand(fi, st, e.args[1]) if len(e.args) >= 2 else None
+                if len(e.args) >= 2 and pos is None:
+                    subj = None
+                st.mt[tv] = (rx, subj, pos, m)
+                return [st]
+            return None
+        if m in ("strip", "lstrip", "rstrip", "removeprefix", "removesuffix") and len(e.args) <= 1 and not e.keywords:
+            t1 = self.tmp()
+            out = []
+            for s in self.eval(fi, st, recv, t1):
+                s.null[tv] = False
+                l1, lt = s.lenvar(t1), s.lenvar(tv)
+                s.add(lt, l1, 0)
+                if m == "removeprefix" and e.args and rv is not None:
+                    # the whole text of a match found at the start of the receiver is a prefix of it
+                    xv = self.var_of(fi, s, e.args[0])
+                    cands = [xv] if xv is not None else []
+                    if isinstance(e.args[0], (ast.Call, ast.Subscript)):
+                        t2 = self.tmp()
+                        s = self.eval(fi, s, e.args[0], t2)[0]
+                        cands.append(t2)
+                    for c in cands:
+                        mvar = s.wm.get(c)
+                        info = s.mt.get(mvar) if mvar is not None else None
+                        if info is not None and info[1] == rv and info[2] is None and info[3] in ("match", "fullmatch"):
+                            lo = s.db.get((ZERO, s.lenvar(c)))
+                            if lo is not None and -lo[0] >= 1:
+                                s.add(lt, l1, lo[0])
+                    for c in cands[1 if xv is not None else 0:]:
+                        s.kill(c)
+                s.kill(t1)
+                out.append(s)
+            return out
+        if m in ("partition", "rpartition") and len(e.args) == 1 and not e.keywords and const_text(e.args[0]):
+            sep = const_text(e.args[0])
+            t1 = self.tmp()
+            out = []
+            for s in self.eval(fi, st, recv, t1):
+                for found in (True, False):
+                    s2 = s.copy()
+                    c0, c1, c2 = (f"{tv}#{i}" for i in range(3))
+                    s2.tup[tv] = (c0, c1, c2)
+                    s2.null[tv] = False
+                    l1 = s2.lenvar(t1)
+                    for c in (c0, c1, c2):
+                        s2.null[c] = False
+                    if found:
+                        s2.truth[c1] = True
+                        s2.add(s2.lenvar(c1), ZERO, len(sep))
+                        s2.add(ZERO, s2.lenvar(c1), -len(sep))
+                        s2.add(s2.lenvar(c0), l1, -len(sep))
+                        s2.add(s2.lenvar(c2), l1, -len(sep))
+                    else:
+                        whole, empty = (c0, c2) if m == "partition" else (c2, c0)
+                        s2.truth[c1] = False
+                        s2.truth[empty] = False
+                        for c in (c1, empty):
+                            s2.add(s2.lenvar(c), ZERO, 0)
+                        s2.add(s2.lenvar(whole), l1, 0)
+                        s2.add(l1, s2.lenvar(whole), 0)
+                    s2.kill(t1)
+                    out.append(s2)
+            return out
+        if m in ("find", "rfind", "index", "rindex", "count") and e.args and not e.keywords:
+            t1 = self.tmp()
+            out = []
+            for s in self.eval(fi, st, recv, t1):
+                s.null[tv] = False
+                s.ints.add(tv)
+                s.add(ZERO, tv, 1 if m in ("find", "rfind") else 0)
+                s.add(tv, s.lenvar(t1), 0)
+                s.kill(t1)
+                out.append(s)
+            return out
+        return None
+
+    def _call_summary(self, fi: FuncInfo, st: PS, e: ast.Call, tv: str, g: FuncInfo) -> list[PS]:
+        sm = self.summary(g)
+        if sm is None:
+            st.opq.add(tv)
+            return [st]
+        a = g.node.args  # type: ignore[attr-defined]
+        pnames = [x.arg for x in a.posonlyargs + a.args + a.kwonlyargs]
+        static = any(d.rsplit(".", 1)[-1] == "staticmethod" for d in g.decorators)
+        if g.cls is not None and not static and pnames:
+            pnames = pnames[1:]
+        states = [st]
+        amap: dict[str, str] = {}
+        for p in pnames:
+            b = self.flow.bind(g, e, p)
+            if b is None:
+                continue
+            t1 = self.tmp("a")
+            amap[p + "@"] = t1
+            nxt: list[PS] = []
+            for s in states:
+                nxt += self.eval(fi, s, b[1], t1)
+            states = nxt
+
+        def ren(v: str) -> str | None:
+            root, sep, rest = v.partition("#")
+            if root == "$r":
+                return tv + sep + rest
+            if root in amap:
+                return amap[root] + sep + rest
+            return None
+
+        out = []
+        for s in states:
+            for S in sm:
+                s2 = s.copy()
+                if s2.merge(S.renamed(ren)) and _import_generic(s2, S, {p: self.flow.bind(g, e, p) for p in pnames}):
+                    for t1 in amap.values():
+                        s2.kill(t1)
+                    out.append(s2)
+        return out
+
+    # -- conditions ---------------------------------------------------------------
+    def assume(self, fi: FuncInfo, st: PS, e: ast.AST, truth: bool) -> list[PS]:
+        """the states in which condition e evaluates to `truth` (consumes st); [] = impossible on this path."""
+        while isinstance(e, ast.UnaryOp) and isinstance(e.op, ast.Not):
+            e, truth = e.operand, not truth
+        if isinstance(e, ast.BoolOp):
+            is_and = isinstance(e.op, ast.And)
+            if is_and == truth:
+                states = [st]
+                for v in e.values:
+                    nxt: list[PS] = []
+                    for s in states:
+                        nxt += self.assume(fi, s, v, truth)
+                    states = nxt
+                return states
+            out: list[PS] = []
+            cur = [st]
+            for v in e.values:
+                nxt = []
+                for s in cur:
+                    out += self.assume(fi, s.copy(), v, truth)
+                    nxt += self.assume(fi, s, v, not truth)
+                cur = nxt
+            return out
+        if isinstance(e, ast.IfExp):
+            out = []
+            for s in self.assume(fi, st.copy(), e.test, True):
+                out += self.assume(fi, s, e.body, truth)
+            for s in self.assume(fi, st, e.test, False):
+                out += self.assume(fi, s, e.orelse, truth)
+            return out
+        if isinstance(e, ast.Constant):
+            return [st] if bool(e.value) == truth else []
+        if isinstance(e, ast.Compare):
+            if len(e.ops) > 1:
+                # a chain is the conjunction of its links (the operands here are evaluated once and have no effects)
+                links = []
+                left = e.left
+                for op, right in zip(e.ops, e.comparators):
+                    links.append(ast.Compare(left=_unwalrus(left), ops=[op], comparators=[right]))
+                    left = right
+                return self.assume(fi, st, ast.BoolOp(op=ast.And(), values=links), truth)
+            return self._assume_cmp(fi, st, e.left, e.ops[0], e.comparators[0], truth)
+        if isinstance(e, ast.NamedExpr):
+            t1 = self.tmp()
+            out = []
+            for s in self.eval(fi, st, e, t1):
+                s.kill(t1)
+                out += self._assume_truthy(fi, s, e.target, truth)
+            return out
+        return self._assume_truthy(fi, st, e, truth)
+
+    def _generic(self, st: PS, key: str, names: t.Iterable[str], truth: bool) -> list[PS]:
+        cur = st.gen.get(key)
+        if cur is not None:
+            return [st] if cur[0] == truth else []
+        st.gen[key] = (truth, frozenset(names))
+        return [st]
+
+    def _assume_truthy(self, fi: FuncInfo, st: PS, e: ast.AST, truth: bool) -> list[PS]:
+        v = self.var_of(fi, st, e)
+        if v is not None:
+            known = st.truth.get(v)
+            if known is not None:
+                return [st] if known == truth else []
+            if st.null.get(v) is True:
+                return [] if truth else [st]
+            lk = f"len({v})"
+            if lk in st.deps:
+                if st.entails(ZERO, lk, -1):
+                    return [st] if truth else []
+                if st.exact(lk) == 0:
+                    return [] if truth else [st]
+            if truth and not st.set_null(v, False):
+                return []
+            st.truth[v] = truth
+            if v in st.ints and st.null.get(v) is False and not truth:
+                st.add(v, ZERO, 0)
+                st.add(ZERO, v, 0)
+            if truth and v not in st.ints and v not in st.tup:
+                st.add(ZERO, st.lenvar(v), -1)  # a sized value that is true is not empty
+            return [st]
+        if isinstance(e, ast.Call) and self.flow.resolve_callee(fi, e):
+            t1 = self.tmp()
+            out = []
+            for s in self.eval(fi, st, e, t1):
+                known = s.truth.get(t1)
+                if known is None and s.null.get(t1) is True:
+                    known = False
+                s.kill(t1)
+                if known is None or known == truth:
+                    out.append(s)
+            return out
+        from .guards import canon
+
+        e = _strip_walrus(e)
+        k, pol = canon(e)
+        return self._generic(st, k, astq.names_in(e), truth == pol)
+
+    def _assume_cmp(self, fi: FuncInfo, st: PS, a: ast.AST, op: ast.cmpop, b: ast.AST, truth: bool) -> list[PS]:
+        from .guards import canon
+
+        if isinstance(op, (ast.Is, ast.IsNot, ast.Eq, ast.NotEq)) and (astq.is_none(a) or astq.is_none(b)):
+            x = b if astq.is_none(a) else a
+            want_none = isinstance(op, (ast.Is, ast.Eq)) == truth
+            if astq.is_none(x):
+                return [st] if want_none else []
+            v = self.var_of(fi, st, x)
+            if v is not None:
+                cur = st.null.get(v)
+                if cur is not None:
+                    return [st] if cur == want_none else []
+                return [st] if st.set_null(v, want_none) else []
+            if isinstance(x, ast.Call) and self.flow.resolve_callee(fi, x):
+                t1 = self.tmp()
+                out = []
+                for s in self.eval(fi, st, x, t1):
+                    cur = s.null.get(t1)
+                    s.kill(t1)
+                    if cur is None or cur == want_none:
+                        out.append(s)
+                return out
+        if isinstance(op, (ast.Lt, ast.Gt, ast.LtE, ast.GtE, ast.Eq, ast.NotEq)):
+            oa, ob = self.operand(fi, st, a), self.operand(fi, st, b)
+            if (oa is None or ob is None) and isinstance(op, (ast.Lt, ast.Gt, ast.LtE, ast.GtE)):
+                # an operand that is computed (call, arithmetic, conditional expression): evaluate it into a temporary
+                sides = [a, b]
+                tmps: list[str] = []
+                states = [st]
+                for i, (o, x) in enumerate(((oa, a), (ob, b))):
+                    if o is None and isinstance(x, (ast.Call, ast.BinOp, ast.IfExp, ast.UnaryOp, ast.BoolOp)) and not (isinstance(x, ast.Call) and isinstance(x.func, ast.Attribute) and not self.flow.resolve_callee(fi, x)):
+                        t1 = self.tmp("c")
+                        tmps.append(t1)
+                        nxt: list[PS] = []
+                        for s in states:
+                            nxt += self.eval(fi, s, x, t1)
+                        states = nxt
+                        sides[i] = ast.Name(t1, ast.Load())
+                if tmps:
+                    out = []
+                    for s in states:
+                        if all(self.operand(fi, s, x) is not None for x in sides):
+                            res = self._assume_cmp(fi, s, sides[0], op, sides[1], truth)
+                        else:
+                            res = [s]
+                        for s2 in res:
+                            for t1 in tmps:
+                                s2.kill(t1)
+                            out.append(s2)
+                    return out
+            if oa is not None and ob is not None:
+                (va, ca), (vb, cb) = oa, ob
+                numeric = not isinstance(op, (ast.Eq, ast.NotEq)) or st.is_int(va) or st.is_int(vb) or va == ZERO or vb == ZERO
+                if numeric:
+                    if isinstance(op, (ast.Lt, ast.Gt, ast.LtE, ast.GtE)):
+                        for v in (va, vb):
+                            if v != ZERO and not st.set_null(v, False):
+                                return []
+                    if isinstance(op, (ast.Gt, ast.GtE)):
+                        (va, ca), (vb, cb) = (vb, cb), (va, ca)
+                    # now: a < b (Lt/Gt) or a <= b (LtE/GtE) with value(a) = va + ca, value(b) = vb + cb
+                    if isinstance(op, (ast.Lt, ast.Gt)):
+                        ok = st.add(va, vb, cb - ca, True) if truth else st.add(vb, va, ca - cb, False)
+                        return [st] if ok else []
+                    if isinstance(op, (ast.LtE, ast.GtE)):
+                        ok = st.add(va, vb, cb - ca, False) if truth else st.add(vb, va, ca - cb, True)
+                        return [st] if ok else []
+                    equal = isinstance(op, ast.Eq) == truth
+                    if equal:
+                        ok = st.add(va, vb, cb - ca) and st.add(vb, va, ca - cb)
+                        return [st] if ok else []
+                    if st.entails(va, vb, cb - ca) and st.entails(vb, va, ca - cb):
+                        return []
+                    if st.is_int(va) and st.is_int(vb):
+                        # different from a value that is the smallest / largest possible: one further
+                        if st.entails(va, vb, cb - ca) and not st.add(va, vb, cb - ca - 1):
+                            return []
+                        if st.entails(vb, va, ca - cb) and not st.add(vb, va, ca - cb - 1):
+                            return []
+                        return [st]
+        a, b = _strip_walrus(a), _strip_walrus(b)
+        k, pol = canon(ast.Compare(left=a, ops=[op], comparators=[b]))
+        return self._generic(st, k, astq.names_in(a) | astq.names_in(b), truth == pol)
+
+    # -- statements -------------------------------------------------------------------
+    def bind(self, fi: FuncInfo, st: PS, tg: ast.AST, tv: str) -> None:
+        if isinstance(tg, ast.Name):
+            st.kill(tg.id)
+            st.copy_var(tv, tg.id)
+            return
+        if isinstance(tg, (ast.Tuple, ast.List)):
+            comps = st.tup.get(tv)
+            if comps is not None and len(comps) == len(tg.elts) and not any(isinstance(x, ast.Starred) for x in tg.elts):
+                for x, cv in zip(tg.elts, comps):
+                    self.bind(fi, st, x, cv)
+                return
+            for x in ast.walk(tg):
+                if isinstance(x, ast.Name):
+                    st.unknown(x.id, opaque=True)
+
+    def _walruses(self, fi: FuncInfo, st: PS, e: ast.AST) -> list[PS]:
+        ws = [w for w in [e, *walk_no_nested(e)] if isinstance(w, ast.NamedExpr)]
+        states = [st]
+        for w in reversed(ws):
+            nxt: list[PS] = []
+            for s in states:
+                t1 = self.tmp()
+                for s2 in self.eval(fi, s, w, t1):
+                    s2.kill(t1)
+                    nxt.append(s2)
+            states = nxt
+        return states
+
+    def step(self, fi: FuncInfo, n, st: PS) -> list[PS]:
+        """the states after executing node n normally (consumes st)."""
+        a = n.ast
+        if a is None:
+            return [st]
+        if n.kind == "with":
+            for it in a.items:
+                if it.optional_vars is not None:
+                    for x in ast.walk(it.optional_vars):
+                        if isinstance(x, ast.Name):
+                            st.unknown(x.id, opaque=True)
+            return [st]
+        if n.kind == "handler":
+            if a.name:
+                st.unknown(a.name, opaque=True)
+            return [st]
+        if n.kind != "stmt":
+            return [st]
+        if isinstance(a, (ast.Assign, ast.AnnAssign)):
+            if getattr(a, "value", None) is None:
+                return [st]
+            tgs = a.targets if isinstance(a, ast.Assign) else [a.target]
+            t1 = self.tmp("v")
+            out = []
+            for s in self.eval(fi, st, a.value, t1):
+                for tg in tgs:
+                    self.bind(fi, s, tg, t1)
+                s.kill(t1)
+                out.append(s)
+            return out
+        if isinstance(a, ast.AugAssign):
+            if isinstance(a.target, ast.Name):
+                syn = ast.BinOp(left=ast.Name(a.target.id, ast.Load()), op=a.op, right=a.value)
+                t1 = self.tmp("v")
+                out = []
+                for s in self.eval(fi, st, syn, t1):
+                    self.bind(fi, s, a.target, t1)
+                    s.kill(t1)
+                    out.append(s)
+                return out
+            return self._walruses(fi, st, a.value)
+        if isinstance(a, ast.Assert):
+            out = []
+            for s in self._walruses(fi, st, a.test):
+                out += self.assume(fi, s, a.test, True)
+            return out
+        if isinstance(a, ast.Delete):
+            for tg in a.targets:
+                if isinstance(tg, ast.Name):
+                    st.unknown(tg.id)
+            return [st]
+        if isinstance(a, (ast.FunctionDef, ast.AsyncFunctionDef, ast.ClassDef)):
+            st.unknown(a.name, opaque=True)
+            return [st]
+        if isinstance(a, (ast.Import, ast.ImportFrom)):
+            for al in a.names:
+                st.unknown((al.asname or al.name).split(".")[0], opaque=True)
+            return [st]
+        return self._walruses(fi, st, a)
+
+    # -- paths --------------------------------------------------------------------------
+    def walk(self, fi: FuncInfo, goals: t.Iterable, on_goal: t.Callable[[t.Any, PS], None], init: PS | None = None, starts: t.Iterable | None = None, block: t.Iterable = (),
+             within: set[int] | None = None, no_havoc: t.Iterable[int] = (), stop_at_goal: bool = False, first_free: bool = False) -> None:
+        """enumerate the acyclic paths from the function entry (or `starts`) and call on_goal(node, state before the
+        node) at every goal node they reach.  within: only these nodes are visited; no_havoc: loop heads that are passed
+        at most once by construction (a single iteration is followed), so nothing has to be forgotten there;
+        stop_at_goal: a path ends at the first goal; first_free: the start nodes themselves do not count as reached."""
+        cfg = cfg_of(fi)
+        rd = self.flow.rd(fi)
+        goal_ids = {g.id for g in goals}
+        useful: set[int] = set()
+        work = [n for n in cfg.nodes if n.id in goal_ids]
+        while work:
+            n = work.pop()
+            if n.id in useful or (within is not None and n.id not in within):
+                continue
+            useful.add(n.id)
+            work.extend(p for p, _ in n.preds)
+        loops = self.loop_assigned(fi)
+        keep = set(no_havoc)
+        st0 = init if init is not None else self.entry_state(fi)
+        stack = [(n, st0.copy(), frozenset(b.id for b in block), first_free) for n in (starts if starts is not None else [cfg.entry])]
+        while stack:
+            n, st, seen, free = stack.pop()
+            self.steps += 1
+            if self.steps > self.LIMIT:
+                from .loader import AnalysisError
+
+                raise AnalysisError(f"C07: too many paths while collecting facts in {fi.qualname}")
+            if n.id in seen or n.id not in useful:
+                continue
+            if n.id in loops and n.id not in keep:
+                self._havoc(fi, n, st, loops[n.id])
+            if n.id in goal_ids and not free:
+                on_goal(n, st.copy())
+                if stop_at_goal:
+                    continue
+            seen2 = seen if free else seen | {n.id}
+            self.cur_node = n
+            defs = rd.gen.get(n.id, [])
+            for m, lab in n.succs:
+                if lab == "exc" and m.id in useful:
+                    s = st.copy()
+                    for d_ in defs:
+                        s.unknown(d_.name, opaque=True)
+                    stack.append((m, s, seen2, False))
+            if n.id in goal_ids and isinstance(n.ast, ast.Return) and not free:
+                continue  # the value is returned: what follows (the exit) is not a fall-off of the function's end
+            if n.kind == "test":
+                pre = self._walruses(fi, st, n.ast)
+                for lab in ("T", "F"):
+                    succ = [m for m in cfg.succ(n, lab) if m.id in useful]
+                    if not succ:
+                        continue
+                    for s0 in pre:
+                        for s in self.assume(fi, s0.copy(), n.ast, lab == "T"):
+                            for m in succ:
+                                stack.append((m, s.copy() if len(succ) > 1 else s, seen2, False))
+                continue
+            if n.kind == "loop":
+                for m, lab in n.succs:
+                    if lab == "exc" or m.id not in useful:
+                        continue
+                    s = st.copy()
+                    if lab == "T":
+                        for x in ast.walk(n.ast.target):
+                            if isinstance(x, ast.Name):
+                                s.unknown(x.id, opaque=True)
+                    stack.append((m, s, seen2, False))
+                continue
+            nxt = [m for m, lab in n.succs if lab not in ("exc", "raise") and m.id in useful]
+            if not nxt:
+                continue
+            for s in self.step(fi, n, st):
+                for m in nxt:
+                    stack.append((m, s.copy() if len(nxt) > 1 else s, seen2, False))
+
+    def _havoc(self, fi: FuncInfo, head, st: PS, names: set[str]) -> None:
+        """forget what is known about the names a loop assigns - except that a text the loop only ever shortens is not
+        longer than before, and an int it only ever raises (lowers) is not smaller (larger)."""
+        mono = self.monotone(fi, head)
+        # bounds against 0 that hold now and that every iteration preserves (when the value is a number at all)
+        cands = set()
+        for nm in names:
+            if nm in st.tup or st.null.get(nm) is True:
+                continue
+            lo, hi = st.db.get((ZERO, nm)), st.db.get((nm, ZERO))
+            if lo is not None:
+                cands.add((nm, "lo", lo[0], lo[1]))
+            if hi is not None:
+                cands.add((nm, "hi", hi[0], hi[1]))
+        inv = self.invariants(fi, head, frozenset(cands)) if cands else ()
+        try:
+            self._havoc0(st, names, mono)
+        finally:
+            for nm, kind, c, strict in inv:
+                if kind == "lo":
+                    st.add(ZERO, nm, c, strict)
+                else:
+                    st.add(nm, ZERO, c, strict)
+
+    def invariants(self, fi: FuncInfo, head, cands: frozenset) -> tuple:
+        """the candidates (name, 'lo' | 'hi', c, strict) - bounds of a name against 0, read as `if it is a number` - that
+        every iteration of the loop re-establishes when all of them are assumed at the head (greatest inductive subset)."""
+        key = (fi.fq, head.id, cands)
+        if key in self._inv:
+            return self._inv[key]
+        self._inv[key] = ()
+        from .loader import AnalysisError
+
+        def holds(a_: PS, cand) -> bool:
+            nm, kind, c, strict = cand
+            if a_.null.get(nm) is True:
+                return True
+            return a_.entails(ZERO, nm, c, strict) if kind == "lo" else a_.entails(nm, ZERO, c, strict)
+
+        cur = set(cands)
+        save = self.steps
+        try:
+            self.steps = 0
+            while cur:
+                init = PS()
+                for nm, kind, c, strict in cur:
+                    if kind == "lo":
+                        init.add(ZERO, nm, c, strict)
+                    else:
+                        init.add(nm, ZERO, c, strict)
+                arr = self.cycles(fi, head, init)
+                bad = {cand for cand in cur if any(not holds(a_, cand) for a_ in arr)}
+                if not bad:
+                    break
+                cur -= bad
+        except AnalysisError:
+            cur = set()
+        finally:
+            self.steps = save
+        self._inv[key] = tuple(sorted(cur))
+        return self._inv[key]
+
+    def _havoc0(self, st: PS, names: set[str], mono: dict[str, set[str]]) -> None:
+        for nm in names:
+            rel = mono.get(nm)
+            if not rel or nm in st.tup:
+                st.unknown(nm)
+                continue
+            old = self.tmp("o")
+            if "len<=" in rel:
+                st.lenvar(nm)
+            st.copy_var(nm, old)
+            st.unknown(nm)
+            if "len<=" in rel:
+                st.add(st.lenvar(nm), st.lenvar(old), 0)
+            if ">=" in rel:
+                st.add(old, nm, 0)
+            if "<=" in rel:
+                st.add(nm, old, 0)
+            st.kill(old)
+
+    def loop_region(self, fi: FuncInfo, head) -> set[int]:
+        cfg = cfg_of(fi)
+        loop = head.ast
+        inner = {id(x) for x in ast.walk(loop)}
+        ids = {n.id for n in cfg.nodes if n.ast is not None and id(n.ast) in inner}
+        if isinstance(loop, (ast.For, ast.AsyncFor, ast.While)):
+            # the else-branch runs after the loop, not in it
+            orelse = {id(x) for st_ in loop.orelse for x in [st_, *ast.walk(st_)]}
+            ids -= {n.id for n in cfg.nodes if n.ast is not None and id(n.ast) in orelse}
+        ids.add(head.id)
+        return ids
+
+    def cycles(self, fi: FuncInfo, head, init: PS | None = None) -> list[PS]:
+        """the states in which one iteration of the loop at `head` returns to the head; every name N the loop assigns has
+        its value at the start of the iteration under `N@h`."""
+        st0 = init.copy() if init is not None else PS()
+        st0.tags = set()
+        for nm in sorted(self.loop_assigned(fi).get(head.id, ())):
+            if nm in st0.tup:
+                continue
+            st0.lenvar(nm)
+            st0.copy_var(nm, nm + "@h")
+        out: list[PS] = []
+        self.walk(fi, [head], lambda n, st: out.append(st), init=st0, starts=[head], within=self.loop_region(fi, head), no_havoc=[head.id], stop_at_goal=True, first_free=True)
+        return out
+
+    def monotone(self, fi: FuncInfo, head) -> dict[str, set[str]]:
+        """names that every iteration of the loop at `head` changes in one direction only:
+        'len<=' (a text that is never longer afterwards), '>=' / '<=' (a number that never falls / rises)."""
+        key = (fi.fq, head.id)
+        if key in self._mono:
+            return self._mono[key]
+        self._mono[key] = {}  # while computing (and for recursion): nothing known
+        from .loader import AnalysisError
+
+        res: dict[str, set[str]] = {}
+        save = self.steps
+        try:
+            self.steps = 0
+            arr = self.cycles(fi, head)
+            for nm in self.loop_assigned(fi).get(head.id, ()):
+                rel = set()
+                h = nm + "@h"
+                ln, lh = f"len({nm})", f"len({h})"
+                if arr and all(ln in a_.deps and lh in a_.deps and a_.entails(ln, lh, 0) for a_ in arr):
+                    rel.add("len<=")
+                if arr and all(a_.entails(h, nm, 0) for a_ in arr):
+                    rel.add(">=")
+                if arr and all(a_.entails(nm, h, 0) for a_ in arr):
+                    rel.add("<=")
+                if rel:
+                    res[nm] = rel
+        except AnalysisError:
+            res = {}
+        finally:
+            self.steps = save
+        self._mono[key] = res
+        return res
+
+    # -- summaries of package helpers ------------------------------------------------------
+    def summary(self, g: FuncInfo) -> list[PS] | None:
+        """the abstract values g can return, each related to the values its parameters had at entry (`p@`)."""
+        if g.fq in self._sum:
+            return self._sum[g.fq]
+        if g.fq in self._busy:
+            return None
+        if isinstance(g.node, ast.AsyncFunctionDef) or any(isinstance(x, (ast.Yield, ast.YieldFrom)) for x in walk_no_nested(g.node)):
+            self._sum[g.fq] = None
+            return None
+        self._busy.add(g.fq)
+        from .loader import AnalysisError
+
+        cfg = cfg_of(g)
+        a = g.node.args  # type: ignore[attr-defined]
+        shadows = [x.arg + "@" for x in a.posonlyargs + a.args + a.kwonlyargs]
+        rebound = {x.id for x in walk_no_nested(g.node) if isinstance(x, ast.Name) and isinstance(x.ctx, (ast.Store, ast.Del))}
+        stable = {x.arg for x in a.posonlyargs + a.args + a.kwonlyargs} - rebound
+        outs: dict[tuple, PS] = {}
+
+        def on_goal(n, st: PS) -> None:
+            val = n.ast.value if isinstance(n.ast, ast.Return) else None
+            for s in self.eval(g, st, val, "$r"):
+                p = s.project(["$r", *shadows], stable)
+                outs.setdefault(p.key(), p)
+                if len(outs) > 40:
+                    raise _TooMany()
+
+        save = self.steps
+        res: list[PS] | None
+        try:
+            self.steps = 0
+            goals = [n for n in cfg.nodes if n.kind == "stmt" and isinstance(n.ast, ast.Return)] + [cfg.exit]
+            self.walk(g, goals, on_goal, init=self.entry_state(g, shadows=True))
+            res = list(outs.values())
+        except (_TooMany, AnalysisError):
+            res = None
+        finally:
+            self.steps = save
+            self._busy.discard(g.fq)
+        self._sum[g.fq] = res
+        return res
